@@ -506,6 +506,12 @@ pub proof fn short(b: Seq<u8>)
     reveal(compact_dec);
 }
 
+pub proof fn accepts_bound(b: Seq<u8>, w: nat)
+    ensures compact_accepts(b, w) matches Some(n) ==> n <= b.len()
+{
+    reveal(compact_dec);
+}
+
 pub proof fn too_wide(b: Seq<u8>, w: nat)
     requires b.len() >= 1, b[0] % 4 == 3, (b[0] / 4) as nat + 4 > w
     ensures compact_accepts(b, w) is None
